@@ -211,10 +211,12 @@ FAMILY = [
 
 
 def build(repo, ids):
-    fi = repo.func('tables', '_descriptors_from_ids_iter')
+    """Fold of the list builder on a concrete list, entered through tables._descriptors_from_ids(b, c, r, d, ids): how it walks the
+    list underneath (a next-function, an iterator with islice, recursion over slices) is its own business."""
+    fi = repo.func('tables', '_descriptors_from_ids')
     it = BuildInterp(repo, None)
-    res = it.run_function(fi, lambda: {'b': Table('B', B_DEFINED), 'c': Table('C', ()), 'r': Table('R', ()), 'd': Table('D', D_DEFINED),
-                                       'next_id': IdSource(ids)})
+    res = it.run_function(fi, lambda: {fi.params[0]: Table('B', B_DEFINED), fi.params[1]: Table('C', ()), fi.params[2]: Table('R', ()), fi.params[3]: Table('D', D_DEFINED),
+                                       fi.params[4]: list(ids)})
     return fi, res
 
 
